@@ -160,6 +160,7 @@ def line_wrap_by_sentence(
                 width=width,
                 initial_column=current_column,
                 subsequent_offset=subsequent_indent_len,
+                len_fn=len_fn,
                 is_markdown=is_markdown,
             )
             # If last line is shorter than min_line_len, combine with next line.
